@@ -156,3 +156,26 @@ Example demo43 :
   tx_from_proto (apply_override (tx_to_proto t) (0, 0, 1, 65536)) = RErr /\
   tx_from_proto (apply_override (tx_to_proto t) (2, 0, 0, 64)) = RPanic.
 Proof. vm_compute. repeat split; reflexivity. Qed.
+
+(* ---------- outbox message ids ---------- *)
+Lemma recompute_loop_spec : forall rss acc, recompute_loop acc rss = acc ++ producer_ids rss.
+Proof.
+  induction rss as [|rs rss IH]; intro acc; cbn [recompute_loop producer_ids flat_map].
+  - symmetry. apply app_nil_r.
+  - rewrite IH. fold (producer_ids rss). destruct (existsb is_revert rs).
+    + reflexivity.
+    + rewrite app_assoc. reflexivity.
+Qed.
+
+Lemma recomputed_ids_producer : forall rss, recomputed_ids rss = producer_ids rss.
+Proof. intro rss. unfold recomputed_ids. apply recompute_loop_spec. Qed.
+
+(* HISTORY / what the rule must not be: the revert test hoisted over the whole block (one
+   reverted transaction suppresses the messages of every other one) differs from the producer
+   as soon as one transaction reverts and another one sends a message *)
+Definition hoisted_ids (rss : list (list rkind)) : list N :=
+  if existsb is_revert (concat rss) then [] else filter_map message_id (concat rss).
+Example hoisted_ids_differs :
+  producer_ids [[RcMessageOut 1; RcScriptResult]; [RcRevert; RcScriptResult]] = [1] /\
+  hoisted_ids [[RcMessageOut 1; RcScriptResult]; [RcRevert; RcScriptResult]] = [].
+Proof. split; reflexivity. Qed.
